@@ -97,7 +97,10 @@ def handleReq (case obs : List String) : String :=
     let (frames, tab) := bodyOf obs
     let o := (unhexBare origin).getD []
     let p := (unhexBare path).getD []
-    let expectPath := if o = [] ∨ o = Ascii.ofString "/" then p else o ++ p
+    -- only the PATH of the origin (up to a `?`) is joined in front of the method path; an origin
+    -- path of "" or "/" contributes nothing
+    let op := o.takeWhile (· != 63)
+    let expectPath := if op = [] ∨ op = Ascii.ofString "/" then p else op ++ p
     verdict ([("no-panic", !obs.any isBad), ("no-lost-wakeup", noLostWakeup obs),
               ("method-POST", fieldOf "M" obs == some "POST"),
               ("http2", fieldOf "V" obs == some "HTTP/2.0"),
